@@ -30,6 +30,10 @@ VARIANTS = [
     V("C15-b12-midpoint-mixed-distribution", "break", "        return self.get_middle_weighted(a, b, distr.cdf, distr.ppf)", "        return self.get_middle_weighted(a, b, distr.cdf, self.distributions[0].ppf)", "C15.D6"),
     V("C15-b13-second-weight-to-same-entry", "break", "            weights[i] += w1\n            weights[i+1] += w2\n", "            weights[i] += w1\n            weights[i] += w2\n", "C15.D2"),
     V("C15-b14-moment-over-other-interval", "break", "            moment_0 = distribution.get_zeroth_moment(x1, x2)\n", "            moment_0 = distribution.get_zeroth_moment(a, x2)\n", "C15.D2"),
+    V("C15-b15-moment-cache-keyed-by-left-end", "break", "        cache = self.cached_moments[1]\n        if (x1, x2) in cache:\n            return cache[(x1, x2)]",
+      "        cache = self.cached_moments[1]\n        if x1 in cache:\n            return cache[x1]", "C15.D7", file=GO),
+    V("C15-b16-moments-share-cache", "break", "        cache = self.cached_moments[1]\n", "        cache = self.cached_moments[0]\n", "C15.D7", file=GO),
+    V("C15-b17-zeroth-moment-orientation", "break", "        moment_0 = self.cdf(x2) - self.cdf(x1)", "        moment_0 = self.cdf(x1) - self.cdf(x2)", "C15.D7", file=GO),
     # neutral
     V("C15-n01-clip-form-if", "neutral",
       "            if weights[i] >= 0.0:\n                continue\n            assert -weights[i] < 10 ** -5, \"calculated negative weight\"\n            weights[i] = 0.0\n",
